@@ -169,6 +169,9 @@ macro_rules! throttle_time_closure {
   }};
 }
 
+/// log id under which the stateful combine_latest combinator numbers its calls
+pub const COMBINE_CALL_ID: u32 = 46;
+
 macro_rules! gen_builder {
   (
     $modname:ident, $B:ty, $Subj:ty, $Subscriber:ident, $BoxObs:ty, $Sched:ty,
@@ -378,7 +381,15 @@ macro_rules! gen_builder {
           Op::Merge(c) => b.$merge(build(c, cx)).box_it(),
           Op::Zip(c) => b.$zip(build(c, cx)).map(|(a, c): (V, V)| V::p(a, c)).box_it(),
           Op::CombineLatest(c) => b
-            .$combine(build(c, cx), |a: V, c: V| (a, c))
+            .$combine(build(c, cx), {
+              // a stateful combinator (it is an FnMut): it numbers its own calls
+              let (l2, mut calls) = (log.clone(), 0i64);
+              move |a: V, c: V| {
+                calls += 1;
+                l2.mark(crate::build::COMBINE_CALL_ID, "combine_call", calls);
+                (a, c)
+              }
+            })
             .map(|(a, c): (V, V)| V::p(a, c))
             .box_it(),
           Op::WithLatestFrom(c) => {
